@@ -251,6 +251,30 @@ def clashes(case, pkg="files"):
     return conflict, duplicate
 
 
+def unresolvable_duplicate(case, pkg="files"):
+    files = sorted(case.get(pkg) or [], key=lambda f: f["name"])
+    calls = []
+    for f in files:
+        for c in f["calls"]:
+            h = handler(case, c["name"])
+            calls.append((h["name"] if h else None, c["name"], (case["types"][c["type"]]["go"], c.get("arity") or arity(c["plugin"]))))
+    for j in range(len(calls)):
+        hj, nj, tj = calls[j]
+        if hj is None:
+            continue
+        first = [i for i in range(j) if calls[i][0] == hj and calls[i][2] == tj]
+        if not first:
+            continue
+        i = first[0]
+        if calls[i][1] == nj:
+            continue
+        pre = [c for c in calls[:i + 1] if c[0] == hj]
+        if any(a[1] == b[1] and a[2] != b[2] for x, a in enumerate(pre) for b in pre[x + 1:]):
+            continue
+        return True
+    return False
+
+
 def arity(plugin):
     return 2 if plugin in ("equal", "compare", "deepcopy", "tuple") else 1
 
@@ -290,7 +314,11 @@ def spec_verdict_pkg(case, variant, pkg):
         # call that occurs again); a duplicate-only package must fail; duplicate + conflict: not determined
         if not duplicate:
             return "ok"
-        return "fail" if not conflict else None
+        if not conflict:
+            return "fail"
+        # both: -autoname must still not resolve a duplicate whose first name was registered as written: the FIRST call
+        # with a type list binds it to its written name when no rename can have happened before (no conflict so far)
+        return "fail" if unresolvable_duplicate(case, pkg) else None
     if variant == "d":
         if not conflict:
             return "ok"
